@@ -1045,3 +1045,88 @@ def bi(b, f):
     if f == 2:
         return False
     return b
+
+
+# --------------------------------------------------------------------------- C14: from_native
+
+class UnexpectedDraw(Exception):
+    pass
+
+
+class NoRandom:
+    """random stub for schemas that must generate without drawing."""
+
+    def randint(self, a, b):
+        raise UnexpectedDraw("randint")
+
+    def choice(self, seq):
+        raise UnexpectedDraw("choice")
+
+    def uniform(self, a, b):
+        raise UnexpectedDraw("uniform")
+
+
+def fake_nodraw(S):
+    _RANDOM_MOD.random = NoRandom()
+    try:
+        return fake(S)
+    finally:
+        _RANDOM_MOD.random = _REAL_RANDOM
+
+
+def same(w, v, loose=False):
+    """Type-aware deep equality of plain values: kind, content, length, key set, members.
+    loose=True identifies True/False with 1/0 (Python's own identification)."""
+    if v is None:
+        return w is None
+    if isinstance(v, bool):
+        if loose:
+            return isinstance(w, int) and w == v
+        return isinstance(w, bool) and w == v
+    if isinstance(v, int):
+        if loose:
+            return isinstance(w, int) and w == v
+        return isinstance(w, int) and not isinstance(w, bool) and w == v
+    if isinstance(v, float):
+        return isinstance(w, float) and (w == v or isclose_py(w, v))
+    if isinstance(v, str):
+        return isinstance(w, str) and w == v
+    if isinstance(v, bytes):
+        return isinstance(w, bytes) and w == v
+    if isinstance(v, list):
+        if not isinstance(w, list) or len(w) != len(v):
+            return False
+        for i in range(len(v)):
+            if not same(w[i], v[i], loose):
+                return False
+        return True
+    if isinstance(v, dict):
+        if not isinstance(w, dict) or len(w) != len(v):
+            return False
+        for k in v:
+            if k not in w or not same(w[k], v[k], loose):
+                return False
+        return True
+    if isinstance(v, UUID):
+        return isinstance(w, UUID) and w == v
+    if isinstance(v, datetime):
+        return isinstance(w, datetime) and w == v
+    if isinstance(v, date):
+        return isinstance(w, date) and w == v
+    raise AssertionError("not a plain value")
+
+
+def native_problem(v, w):
+    """'' when from_native(v) denotes exactly v (C14), judged on the probe w."""
+    S = from_native(v)
+    if not ok_validate(S, v):
+        return "schema rejects its own value"
+    g = fake_nodraw(S)
+    if not same(g, v):
+        return "generated value differs"
+    strict = same(w, v)
+    if same(w, v, True) and not strict:
+        raise IgnoreAttempt("pair differs only by the bool/int identification")
+    if ok_validate(S, w) != strict:
+        return "accepts a different value" if not strict else "rejects an equal value"
+    return ""
